@@ -113,7 +113,9 @@ class NodeReference:
                 index -= 1
             line -= 1
             if line >= 0:
-                index = len(self.lines[line]) - 1
+                # a comment may follow the '@(' on the earlier line
+                code = self.lines[line].split("#", 1)[0]
+                index = len(code) - 1
         return None
 
     def admissible(self, node: ast.AST) -> Tuple[Set[Tuple[int, int]], str]:
